@@ -1037,15 +1037,19 @@ def _jax2np(J):
     ndarray
         The numpy array.
     """
+    def _flat(a):
+        # flatten all but the last (batch) dimension.  The batch dimension is empty when the
+        # coloring has no colors (identically zero jacobian), so reshape(-1, 0) can't be used.
+        a = np.asarray(a)
+        return a.reshape(int(np.prod(a.shape[:-1], dtype=int)), a.shape[-1])
+
     if isinstance(J, tuple):
         if len(J) == 1:
-            J = np.asarray(J[0])
-            # reshape(-1, ...) to flatten all but the last dimension
-            return J.reshape(-1, J.shape[-1])
+            return _flat(J[0])
         else:
-            return np.concatenate([np.asarray(a).reshape(-1, a.shape[-1]) for a in J])
+            return np.concatenate([_flat(a) for a in J])
     else:
-        return np.asarray(J).reshape(-1, J.shape[-1])
+        return _flat(J)
 
 
 def _jax_derivs2partials(self, deriv_vals, partials, ofnames, wrtnames):
